@@ -5,7 +5,7 @@ Fraction, Sample) or an opaque value.  Only structure-preserving operations are 
 slice assignment, stacking, repetition, broadcasting arithmetic): the *shape* of the result is always exact, the entries are exact
 whenever the operands are.  Anything else answers `None` (the caller makes the result opaque)."""
 from __future__ import annotations
-import itertools
+import itertools, weakref
 
 
 class NArr:
@@ -15,6 +15,21 @@ class NArr:
         self.label = label
         self.reads = None        # set of consumed positions, only for 1-D parameter samples (linspace)
         self.node = None
+        self.base = None         # the array this one is a numpy *view* of (basic indexing, reshape, transposition, rows)
+        self._views = None       # weak set of the live views taken on this array
+
+    # ---- views: numpy shares the memory, this model copies - a write on either side while the other is alive is not followed
+    def view_of(self, parent):
+        root = parent.base if parent.base is not None else parent
+        self.base = root
+        if root._views is None:
+            root._views = weakref.WeakSet()
+        root._views.add(self)
+        return self
+
+    def aliased(self):
+        """is the memory of this array shared with another live array of the model?"""
+        return self.base is not None or bool(self._views)
 
     # ---- basic facts
     @property
@@ -56,7 +71,7 @@ class NArr:
         if self.ndim <= 1:
             return list(self.items)
         step = self.size // self.shape[0] if self.shape[0] else 0
-        return [NArr(self.items[i * step:(i + 1) * step], self.shape[1:], self.label) for i in range(self.shape[0])]
+        return [NArr(self.items[i * step:(i + 1) * step], self.shape[1:], self.label).view_of(self) for i in range(self.shape[0])]
 
     def nested(self):
         self.mark_all()
@@ -145,7 +160,11 @@ class NArr:
             self.mark(p)
         if not shape:
             return _Entry(self.items[flat[0]])
-        return NArr([self.items[p] for p in flat], shape, self.label)
+        out = NArr([self.items[p] for p in flat], shape, self.label)
+        keys = key if isinstance(key, tuple) else (key,)
+        if all(k is None or k is Ellipsis or isinstance(k, (int, slice)) for k in keys):
+            out.view_of(self)          # basic indexing gives a view
+        return out
 
     def set(self, key, value):
         """`self[key] = value` (broadcast); returns a message when the assignment raises, False when it is not modelled"""
@@ -154,6 +173,8 @@ class NArr:
             return False
         if isinstance(sel, str):
             return sel
+        if self.aliased():
+            return "aliased"
         flat, shape = sel
         if isinstance(value, NArr):
             b = broadcast_to(value, shape)
@@ -286,7 +307,7 @@ def reshape(arr, shape):
     elif known != arr.size:
         return f"cannot reshape array of size {arr.size} into shape {tuple(shape)}"
     arr.mark_all()
-    return NArr(list(arr.items), shape, arr.label)
+    return NArr(list(arr.items), shape, arr.label).view_of(arr)
 
 
 def transpose(arr):
@@ -298,7 +319,38 @@ def transpose(arr):
     out = []
     for idx in itertools.product(*[range(d) for d in shape]):
         out.append(arr.items[sum(i * s for i, s in zip(idx, st))])
-    return NArr(out, shape, arr.label)
+    return NArr(out, shape, arr.label).view_of(arr)
+
+
+def permute(arr, axes):
+    """np.transpose(arr, axes): result axis k is source axis axes[k]"""
+    axes = [a + arr.ndim if a < 0 else a for a in axes]
+    if sorted(axes) != list(range(arr.ndim)):
+        return None
+    arr.mark_all()
+    shape = tuple(arr.shape[a] for a in axes)
+    st = arr.strides()
+    out = []
+    for idx in itertools.product(*[range(d) for d in shape]):
+        out.append(arr.items[sum(i * st[a] for i, a in zip(idx, axes))])
+    return NArr(out, shape, arr.label).view_of(arr)
+
+
+def flip(arr, axis):
+    """np.flip along one axis"""
+    if axis < 0:
+        axis += arr.ndim
+    if not 0 <= axis < arr.ndim:
+        return None
+    arr.mark_all()
+    st = arr.strides()
+    d = arr.shape[axis]
+    out = []
+    for idx in itertools.product(*[range(x) for x in arr.shape]):
+        src = list(idx)
+        src[axis] = d - 1 - idx[axis]
+        out.append(arr.items[sum(i * s_ for i, s_ in zip(src, st))])
+    return NArr(out, arr.shape, arr.label)
 
 
 def stack(arrs, axis):
